@@ -34,6 +34,7 @@ import Proofs.FitCoherent
 import Proofs.FitValid
 import Proofs.FitPayload
 import Proofs.FitAround
+import Proofs.FitOpen
 import Proofs.JoinSuccess
 import Proofs.Placement
 import Props.C01
@@ -1482,6 +1483,68 @@ example :
     let doc := Node.elem 0 [] [] [.elem 1 [] [] [.text [97, 98] []]]
     let sl : Slice := ⟨[.elem 1 [] [] [.text [120] []]], 0, 0⟩
     S.closableB = true ∧ S.checkKids sl.content = true ∧ fitEndInv S doc 2 2 sl = some true := by decide +kernel
+
+/-- **`fit_emits_valid_payload`** — the payload of every step `replace_step` emits is valid in the sense of C01
+    (`openValid`), for **every** request: whatever the range, for every request slice that is *loosely valid*
+    (`Slice.looseValid`, PM/FitGuards.lean, decidable: its closed nodes are valid, the nodes of its two open spines carry
+    canonical marks, have a type of the schema and children whose marks that type allows — what a slice cut from a valid
+    document satisfies, and what implies `openValid`: `looseValid_openValid`), on a valid document whose element nodes
+    have creatable types.  Hypotheses: those of `fit_emits_wf` (schema guards `detB`, `fillersOKB`, `wrapOKB`, `labelsOKB`;
+    the run hypothesis `unplacedWfRun`: the unplaced slice stays `Slice.wf`) and `leafOkB`, `textStableC`, `closableB`.
+    No hypothesis on the Fitter's state is left (`fitEndInv` of `fit_emits_valid_payload_of_inv` is now a theorem under
+    these hypotheses).  Proofs/FitOpen.lean: the unplaced slice stays loosely valid for its open depths (`UInv`:
+    `open_more` opens valid nodes, `UL_mono`; `drop_node` / `place_nodes` drop children on the start spine, `UL_drop`, and
+    where they lower `open_end` the sizes force the dropped node to carry the whole open end, `UL_pure_of_size`,
+    `UL_pure_or_shallow`, `UL_drop_pure`); `close_node_start` returns a valid node when it closes completely
+    (`closeNodeStart_closed_valid`) and a right-loose one with the same spine when the end stays open
+    (`closeNodeStart_open`); the take loop adds valid nodes with allowed marks, the last one possibly such an open image
+    (`takeLoop_good_UL`); the levels pushed for the open end have the matches `pushOpenEnd_coh` computes and the validity
+    of that image (`ValR_of_coh_RL`); so `place_nodes` keeps `VInv` (`placeNodes_vinv_gen`), and `close` ends the
+    argument as before (`closeFit_vinv`). -/
+theorem fit_emits_valid_payload (S : Schema) (hdet : detB S = true) (hfill : S.fillersOKB = true)
+    (hwrap : S.wrapOKB = true) (hlab : S.labelsOKB = true) (hleaf : PM.FromDom.leafOkB S = true)
+    (hts : textStableC S = true) (hcl : S.closableB = true) (doc : Node) (f t : Nat) (sl : Slice)
+    (hloose : sl.looseValid S = true) (hv : C01.Valid S doc) (hattrs : S.nodeAttrsOK doc = true)
+    (hrun : unplacedWfRun S doc f t sl = true) (st : Step) (h : replaceStep S doc f t sl = .ok (some st)) :
+    ∃ sl', st.sliceOf = some sl' ∧ openValid S sl'.openStart sl'.openEnd sl'.content = true :=
+  replaceStep_valid_gen S (detS_of_detB S hdet) (fillersOK_of_B S hfill) (wrapOK_of_B S hwrap) (labelsOK_of_B S hlab)
+    (PM.FromDom.leafOk_of_B S hleaf) (textStableP_of_C S hts) (closable_of_B S hcl) doc f t sl
+    (looseValid_openValid S sl hloose) hloose hv hattrs hrun st h
+
+/-- a loosely valid slice is a valid payload -/
+theorem looseValid_is_valid_payload (S : Schema) (sl : Slice) (h : sl.looseValid S = true) :
+    openValid S sl.openStart sl.openEnd sl.content = true := looseValid_openValid S sl h
+
+/-- one iteration of the loop, whatever the slice: the validity invariant `VInv` and the loose validity of the unplaced
+    slice (`UInv`) are kept, given that the unplaced slice is well-formed before the iteration -/
+theorem payloadInv_step_gen (S : Schema) (hdet : detB S = true) (hfill : S.fillersOKB = true)
+    (hwrap : S.wrapOKB = true) (hlab : S.labelsOKB = true) (hleaf : PM.FromDom.leafOkB S = true)
+    (hts : textStableC S = true) (hcl : S.closableB = true) (D g : Nat) (st : FitState) (inv : InStep st)
+    (hv : VInv S D g st.frontier st.placed) (hU : UInv S st.unplaced) (hwf : st.unplaced.wf = true)
+    (hsz : (st.unplaced.size == 0) = false) (st' : FitState) (h : fitStep S st = .ok st') :
+    (∃ g', VInv S D g' st'.frontier st'.placed) ∧ UInv S st'.unplaced :=
+  fitStep_vinv_gen S (textStableP_of_C S hts) (detS_of_detB S hdet) (fillersOK_of_B S hfill) (wrapOK_of_B S hwrap)
+    (labelsOK_of_B S hlab) (PM.FromDom.leafOk_of_B S hleaf) (closable_of_B S hcl) D g st inv hv hU hwf hsz st' h
+
+/-- the hypotheses are satisfiable on a run that opens the slice: pasting the closed paragraph `p("x")` into the paragraph
+    of `doc(p("ab"))` at position 2 (the slice is opened, its start closed by `close_node_start`, its open end pushed onto
+    the frontier: the emitted slice is `<p(), p("x"), p()>(1,1)`); and a slice open on both sides is loosely valid -/
+example :
+    let nt (name : String) (isText inl : Bool) (dfa : Array DfaState) : NodeType :=
+      { name := name, isText := isText, isInline := isText, isLeaf := isText, isAtom := isText,
+        inlineContent := inl, isolating := false, defining := false, code := false,
+        dfa := dfa, markSet := none, attrs := [] }
+    let S : Schema := { nodes := #[nt "doc" false false #[⟨false, [(1, 1)]⟩, ⟨true, [(1, 1)]⟩],
+                                   nt "paragraph" false true #[⟨true, [(2, 0)]⟩],
+                                   nt "text" true false #[⟨true, []⟩]],
+                        marks := #[], top := 0, textTy := 2 }
+    let doc := Node.elem 0 [] [] [.elem 1 [] [] [.text [97, 98] []]]
+    let sl : Slice := ⟨[.elem 1 [] [] [.text [120] []]], 0, 0⟩
+    let sl2 : Slice := ⟨[.elem 1 [] [] [.text [120] []], .elem 1 [] [] [.text [121] []]], 1, 1⟩
+    detB S = true ∧ S.fillersOKB = true ∧ S.wrapOKB = true ∧ S.labelsOKB = true ∧ PM.FromDom.leafOkB S = true ∧
+    textStableC S = true ∧ S.closableB = true ∧ S.checkNode doc = true ∧ S.nodeAttrsOK doc = true ∧
+    sl.looseValid S = true ∧ unplacedWfRun S doc 2 2 sl = true ∧ fitsTriviallyO S doc 2 2 sl = some false ∧
+    sl2.looseValid S = true := by decide +kernel
 
 /-- **`coherent_invariant`** — the key invariant `FitState.coherentB` (with the ghost level) is an invariant
     of the loop of `fit` (Proofs/FitCoherent.lean, `Coh` = the proposition behind the Boolean):
